@@ -1,0 +1,41 @@
+//go:build verif
+// +build verif
+
+package verifhook
+
+import (
+	"unsafe"
+
+	"github.com/bytedance/sonic/internal/caching"
+	"github.com/bytedance/sonic/internal/rt"
+)
+
+// ProgramCache gives the external harness direct access to the RCU program cache
+// (internal/caching), with synthetic type descriptors whose hash it controls.
+type ProgramCache struct {
+	c *caching.ProgramCache
+}
+
+// FakeType is a synthetic type descriptor: the cache uses only its address and its Hash field.
+type FakeType struct {
+	t rt.GoType
+}
+
+func NewFakeType(hash uint32) *FakeType {
+	f := new(FakeType)
+	f.t.Hash = hash
+	return f
+}
+
+func NewProgramCache() *ProgramCache { return &ProgramCache{c: caching.CreateProgramCache()} }
+
+// Addr identifies the cache in instrumentation events.
+func (p *ProgramCache) Addr() uintptr { return uintptr(unsafe.Pointer(p.c)) }
+
+func (p *ProgramCache) Get(t *FakeType) interface{} { return p.c.Get(&t.t) }
+
+func (p *ProgramCache) Compute(t *FakeType, compute func(t *FakeType) (interface{}, error)) (interface{}, error) {
+	return p.c.Compute(&t.t, func(vt *rt.GoType, _ ...interface{}) (interface{}, error) {
+		return compute((*FakeType)(unsafe.Pointer(vt)))
+	})
+}
